@@ -116,10 +116,13 @@ def runSys (cfg : Cfg) : List Nat → Sys → Sys
       | some s' => runSys cfg ks s'
       | none => s
 
+def scheduleAux : Nat → Nat → List Nat → List Nat
+  | 0, _, acc => acc.reverse
+  | n + 1, x, acc =>
+    let x' := (x * 1103515245 + 12345) % 2147483648
+    scheduleAux n x' ((x' / 65536) :: acc)
+
 /-- Linear congruential picks. -/
-def schedule (seed n : Nat) : List Nat :=
-  (List.range n).foldl (fun (acc : List Nat × Nat) _ =>
-    let x := (acc.2 * 1103515245 + 12345) % 2147483648
-    (acc.1 ++ [x / 65536], x)) ([], seed) |>.1
+def schedule (seed n : Nat) : List Nat := scheduleAux n seed []
 
 end Hms.Conc
